@@ -213,6 +213,14 @@ func planAll(mode string, k int, seed uint64) verifsim.Plan {
 	return verifsim.Plan{Seed: seed, Order: verifsim.OrderPlan{Mode: mode, K: k}}
 }
 
+func withGo(p verifsim.Plan, mode string, seed uint64) verifsim.Plan {
+	p.Goroutines = mode
+	if seed != 0 {
+		p.Seed = seed
+	}
+	return p
+}
+
 func planSite(site int, mode string, k int, seed uint64) verifsim.Plan {
 	return verifsim.Plan{Seed: seed, Order: verifsim.OrderPlan{Mode: mode, K: k, Sites: []int{site}}}
 }
@@ -273,6 +281,17 @@ func C09Cases(c *Ctx, w *World, rng *rand.Rand, reached []int, nRandom int) []*H
 		g := &GenSpec{Plan: planAll("perm", 0, rng.Uint64())}
 		envVariant(rng, g, w)
 		add(g, rng.IntN(len(locNames)))
+	}
+	// goroutine schedules (R5) — only when the node contains go statements at all
+	if c.Node.HasKind("go") {
+		for i := 0; i < 3; i++ {
+			g := &GenSpec{Plan: withGo(planIdentity(), "native", 0), Gomaxprocs: []int{1, 4, 16}[i]}
+			add(g, 0)
+		}
+		for i := 0; i < 4; i++ {
+			add(&GenSpec{Plan: withGo(planIdentity(), "deferred", rng.Uint64())}, 0)
+		}
+		add(&GenSpec{Plan: withGo(planAll("perm", 0, rng.Uint64()), "deferred", 0)}, 0)
 	}
 	// environment-only variants in identity order (isolates N3/N4 from N1)
 	for i := 0; i < 3; i++ {
